@@ -45,8 +45,11 @@ class CState:
 def pub_payload(pub_id, size):
     if size <= 0:
         return b""
+    # position-dependent content: a forwarded payload that is shifted, permuted or partly stale cannot equal it
     unit = struct.pack("<Q", pub_id)
-    return (unit * (size // 8 + 1))[:size]
+    if size <= 16:
+        return (unit * 3)[:size]
+    return (unit + random.Random(pub_id).randbytes(size - 8))[:size]
 
 
 class Scenario:
